@@ -109,9 +109,21 @@ def opConstruct (j : Json) : R Json := do
   let (ws, objEnd) := constructMany obj ns
   return Json.mkObj [("widths", jList jRats ws), ("obj_after", jOpt jRats objEnd)]
 
+/-- op `c08_construct_sections`: the sections of one multi-section document; `objs` = `col_rel_width` of the distinct
+body objects (null = not set), `secs` = `[[index of the section's body object, column count of its frame], …]` -/
+def opConstructSections (j : Json) : R Json := do
+  let objs ← listF (fun v => if v.isNull then pure none else some <$> asList asRat v) j "objs"
+  let secs ← listF (fun v => do
+    match ← asArr v with
+    | [r, n] => return (← asNat r, ← asNat n)
+    | _ => throw "section: expected [ref, ncol]") j "secs"
+  let (ws, objsEnd) := constructSections objs secs
+  return Json.mkObj [("widths", jList jRats ws), ("objs_after", jList (jOpt jRats) objsEnd)]
+
 namespace Widths
 def ops : List (String × (Json → R Json)) :=
-  [("c08_col_widths", opColWidths), ("c08_section", opSection), ("c08_construct", opConstruct)]
+  [("c08_col_widths", opColWidths), ("c08_section", opSection), ("c08_construct", opConstruct),
+   ("c08_construct_sections", opConstructSections)]
 end Widths
 
 end Driver
